@@ -63,5 +63,7 @@ class WindowPenalty(Function):
 
   @staticmethod
   def com(r):
-    ''' Center of Mass. Merely weighted avg of time-slots. '''
+    ''' Center of Mass. Merely weighted avg of time-slots. The middle of the window when there is no mass. '''
+    if np.sum(r) == 0:
+      return (len(r) - 1)/2
     return np.average(np.arange(len(r)), weights=r)
